@@ -23,7 +23,7 @@ Desc(S) == LET RECURSIVE go(_)
 Orders(S) == {Asc(S), Desc(S)}
 
 Init == /\ \E n \in 2..MaxN, k \in 2..MaxK, kind \in {"validate", "predict"}, sh \in BOOLEAN :
-              k <= n /\ st = InitState(kind, n, k, sh)
+              k <= n /\ st = InitState(kind, n, k, sh, FALSE, <<>>)
         /\ done = FALSE /\ nscore = 0
 
 Fit == /\ ~done
